@@ -167,10 +167,10 @@ class ipv4(packet_base):
             self.next = igmp(raw=raw[self.hl*4:length], prev=self)
         elif self.protocol == ipv4.GRE_PROTOCOL:
             self.next = gre(raw=raw[self.hl*4:length], prev=self)
-        elif dlen < self.iplen:
-            self.msg('(ip parse) warning IP packet data shorter than IP len: %u < %u' % (dlen, self.iplen))
         else:
-            self.next =  raw[self.hl*4:length]
+            if dlen < self.iplen:
+                self.msg('(ip parse) warning IP packet data shorter than IP len: %u < %u' % (dlen, self.iplen))
+            self.next =  raw[self.hl*4:length] # Whatever is there
 
         if isinstance(self.next, packet_base) and not self.next.parsed:
             self.next = raw[self.hl*4:length]
